@@ -287,6 +287,16 @@ def check_accessors_(F, C):
             got = {symstr.show(I.deref_val(s, v)) if I.deref_val(s, v)[0] in ("sstr", "str") else str(v)[:60] for ctl, v, s in res if ctl == OK}
             C.ob(RP + "/accessor-value", "Entry::value on %s" % (list(ks),), len(res) == 1 and got == {want},
                  "yields %s, expected the VALUE token texts joined by newline (%r)" % (sorted(got), want), F.fn(P + "Entry::value")["sp"])
+    # a VALUE token may be empty (Entry::new writes one for a value whose first line is empty): it still counts as a line
+    for ks, texts, want in ((("KEY", "VALUE", "NEWLINE", "VALUE"), {1: symstr.lit("")}, "\n<value3>"),
+                            (("KEY", "VALUE", "VALUE", "VALUE"), {1: symstr.lit(""), 2: symstr.lit("")}, "\n\n<value3>"),
+                            (("KEY", "VALUE", "VALUE"), {2: symstr.lit("")}, "<value1>\n")):
+        ch = [tok(k, texts.get(i, atom(i, k.lower()))) for i, k in enumerate(ks)]
+        res, I = call(P + "Entry::value", wrap_ast("Entry", node("ENTRY", ch)))
+        n_eval += 1
+        got = {symstr.show(I.deref_val(s, v)) if I.deref_val(s, v)[0] in ("sstr", "str") else str(v)[:60] for ctl, v, s in res if ctl == OK}
+        C.ob(RP + "/accessor-value", "Entry::value with empty VALUE tokens at %s of %s" % (sorted(texts), list(ks)), len(res) == 1 and got == {want},
+             "yields %s, expected %r (an empty line is still a line)" % (sorted(got), want), F.fn(P + "Entry::value")["sp"])
     # paragraph-level accessors on child sequences over {ENTRY(key=a), ENTRY(key=b), COMMENT token}
     def ent(i, keyname):
         return node("ENTRY", [tok("KEY", symstr.lit(keyname)), tok("COLON", symstr.lit(":")), tok("WHITESPACE", symstr.lit(" ")), tok("VALUE", atom(i, "v")), tok("NEWLINE", symstr.lit("\n"))], i)
